@@ -139,6 +139,7 @@ class DavSys:
             self.world.slow_body = 0.04
         self.world_b = None
         self._via_b = False
+        self.diverged = False  # two workers: set once they disagree; everything after that is a consequence and is not judged again
         if "two-workers" in cfg.features:
             # a second worker process on the same directory, requests strictly one after another
             assert cfg.front == "wsgi"
@@ -458,11 +459,12 @@ class DavSys:
         self.prev_audit = prev
         audit = self.audit()
         self.recording = check
-        if self.world_b is not None:
+        if self.world_b is not None and not self.diverged:
             self.compare_workers(full_op, audit)
-        self.check(op, info, resp, prev, audit, model_before, target_coll, target_name)
-        if "sync" in self.cfg.features:
-            self.sync_step(op, audit)
+        if not self.diverged:
+            self.check(op, info, resp, prev, audit, model_before, target_coll, target_name)
+            if "sync" in self.cfg.features:
+                self.sync_step(op, audit)
         self.recording = True
         self.last_audit = audit
         return info
@@ -478,9 +480,13 @@ class DavSys:
         for coll in ("cal", "ab", "c2"):
             oa, ob = self.observable(audit[coll]), self.observable(audit_b[coll])
             if oa != ob:
+                self.diverged = True
                 fields = ("exists", "status", "tags", "props", "listing", "subs", "get")
                 diff = [f for f, x, y in zip(fields, oa, ob) if x != y]
-                self.violation(prop, "workers-disagree:%s" % "+".join(diff), "two workers on the same directory show different %s of one collection after the same history" % "/".join(diff),
+                flat = [tuple(h[1]) if h and h[0] == "b" else tuple(h) for h in self.hist]
+                recreated = any(h[0] == "delcoll" and h[1] == coll for h in flat)
+                what = "after-delete-and-recreate" if recreated else "+".join(diff)
+                self.violation(prop, "workers-disagree:%s" % what, "two workers on the same directory show different %s of one collection after the same history" % "/".join(diff),
                                {"op": op, "coll": coll, "worker_a": repr(oa)[:600], "worker_b": repr(ob)[:600]})
 
     def cond_header(self, coll, name, cond, audit):
